@@ -268,6 +268,21 @@ func runSegments(c *fw.Case, d dom, size, initial uint64) {
 				return
 			}
 		}
+		// a derived segmenter with a LOWER (or higher) initial block tiles [new initial, end): first and last segment and count
+		for _, ni := range []uint64{0, initial / 2, initial - min64(initial, 1), initial + 2} {
+			if ni >= end {
+				continue
+			}
+			s4 := s.WithInitialBlock(ni)
+			m4 := modelTiling(size, ni, end)
+			c.Count("derived_initial_block_segmenters", 1)
+			f4 := s4.Range(s4.FirstIndex())
+			l4 := s4.Range(s4.LastIndex())
+			if s4.Count() != len(m4) || f4 == nil || l4 == nil || f4.StartBlock != m4[0].Start || f4.ExclusiveEndBlock != m4[0].End || l4.StartBlock != m4[len(m4)-1].Start || l4.ExclusiveEndBlock != m4[len(m4)-1].End {
+				fail("C13/with-initial-block", fmt.Sprintf("WithInitialBlock(%d): Count()=%d first=%v last=%v, but [%d,%d) is tiled by %d segments from [%d,%d) to [%d,%d)", ni, s4.Count(), f4, l4, ni, end, len(m4), m4[0].Start, m4[0].End, m4[len(m4)-1].Start, m4[len(m4)-1].End))
+				return
+			}
+		}
 
 		if len(model) >= 3 && initial%size != 0 && end%size != 0 {
 			nontrivial = true
@@ -563,4 +578,12 @@ func runMergePRNG(c *fw.Case, d dom) {
 	if adjacentSeen {
 		c.Nontrivial(fmt.Sprintf("merge-prng/%d", c.Index))
 	}
+}
+
+
+func min64(a, b uint64) uint64 {
+	if a < b {
+		return a
+	}
+	return b
 }
